@@ -19,7 +19,8 @@ func init() {
 		Technique: "who-may-call + at-most-one-send path rule on publishToClient; struct-field coverage of the Copy functions; nil-return provenance",
 		Explanation: "(a) publishToClient is called only from publishToSubscribers (once per entry of the client-keyed Subscriptions map) and publishRetainedToClient, and performs at most one enqueue per call; only WriteLoop receives from the queue; " +
 			"(b) Properties.Copy and Packet.Copy assign every field of their struct except the fields in an explicit exclusion table (per-connection / per-hop fields), so payload, content type, correlation data, response topic and user properties are preserved; " +
-			"(c) publishToClient returns a nil error only on the No-Local edge, after a successful enqueue, or after storing the message for flow-control deferral — every other non-delivery is an error return (reported by C34).",
+			"(c) publishToClient returns a nil error only on the No-Local edge, after a successful enqueue, or after storing the message for flow-control deferral — every other non-delivery is an error return (reported by C34); " +
+			"(e) trim unlinks a trie node only after testing, for that very node and again for every ancestor it climbs to, that it holds no client, shared or inline subscription (directly or inside a boolean helper).",
 		NotDecided: []string{"entitlement at publish time under concurrent (un)subscribe", "loss inside WriteLoop/the network", "histories and copies on sockets"},
 		Run:        runC03,
 	})
@@ -189,7 +190,8 @@ func init() {
 		Technique: "clamp-idiom recognition (store guarded by the matching comparison), identifier provenance, guard reachability for the retain flag",
 		Explanation: "(a) in publishToClient the delivered QoS is lowered only by the two clamps `if q > sub.Qos {q = sub.Qos}` and `if q > MaximumQos {q = MaximumQos}`, both before the message is stored or enqueued; Subscription.Merge raises QoS only through the mirrored max idiom; processSubscribe grants the requested QoS clamped to the server maximum; " +
 			"(b) publishToClient reads sub.Identifiers, which only Subscription.Merge fills: every caller must pass a subscription that went through Merge; " +
-			"(c) the retain flag is cleared exactly when the delivery is not a retained replay and (MQTT 3 or Retain As Published is not set).",
+			"(c) the retain flag is cleared exactly when the delivery is not a retained replay and (MQTT 3 or Retain As Published is not set); " +
+			"(d) at every call of Subscription.Merge the argument is a raw stored subscription, never an accumulated entry (Merge copies only the argument's scalar Identifier); (e) only Merge stores into Subscription.Identifiers, so the map a merged entry carries never aliases trie state.",
 		NotDecided: []string{"the numerical minimum over several overlapping subscriptions in a history"},
 		Run:        runC04,
 	})
@@ -373,7 +375,8 @@ func init() {
 		Title:     "Messages on one topic from one publisher arrive in publish order",
 		Technique: "order-dependence analysis of the map-range + sort in Inflight.GetAll (comparator must induce a total order); single producer/consumer of the FIFO queue",
 		Explanation: "(a) Inflight.GetAll collects records from a map range and sorts them: the comparator must compare a per-record unique key (the packet id or a sequence) at least as a tie-break and must not truncate the value it compares — otherwise the resend order is the map's iteration order; " +
-			"(b) the per-client outbound queue has one producer site (publishToClient) and one consumer (WriteLoop), so queue order is enqueue order.",
+			"(b) the per-client outbound queue has one producer site (publishToClient) and one consumer (WriteLoop), so queue order is enqueue order; " +
+			"(a') ResendInflightMessages skips no stored record: every loop iteration writes its record before the next starts; (c) WritePacket writes straight to the connection only while the write buffer is empty (no overtaking of buffered packets).",
 		NotDecided: []string{"overtaking between the queue and direct WritePacket calls", "order across reconnects"},
 		Run:        runC12,
 	})
@@ -490,7 +493,7 @@ func init() {
 		Technique: "order-dependence analysis of range-over-map loops (a body that can leave with different results for different entries); dominance of the user block; level-count guard in MatchTopic",
 		Explanation: "(a) in Ledger.ACLOk and AuthOk a `range` over a map whose body can return different results for different entries makes the decision depend on Go's randomised iteration order; existential loops (one possible result) and slice ranges (list order) pass; " +
 			"(b) the user's own rules are consulted before the global list; global rules are slice ranges with an early return (first matching rule decides); " +
-			"(c) MatchTopic declares a match for a filter without '#' only after comparing the number of levels of filter and topic.",
+			"(c) MatchTopic declares a match for a filter without '#' only after comparing the number of levels of filter and topic, and every positive result is decided after the topic was cut at its '/' separators (whole-level comparison); in (a) a returned value computed from the visited map entry counts as order-dependent.",
 		NotDecided: []string{"RString.Matches prefix semantics", "MatchTopic's truth table beyond the level-count guard"},
 		Run:        runC18,
 	})
